@@ -280,9 +280,15 @@ def _dump_load(col, rule="C11.R5"):
 
 
 def check(col: Collector):
-    _repr_complete(col)
-    _resolvable_names(col)
-    _precedence(col)
-    _no_text_rewriting(col)
-    _dump_load(col)
-    _literal_rendering(col)
+    with col.rule():
+        _repr_complete(col)
+    with col.rule():
+        _resolvable_names(col)
+    with col.rule():
+        _precedence(col)
+    with col.rule():
+        _no_text_rewriting(col)
+    with col.rule():
+        _dump_load(col)
+    with col.rule():
+        _literal_rendering(col)
